@@ -28,7 +28,7 @@ use std::{
 pub static DEF: PropDef = PropDef {
     id: "C15",
     level: "exploration",
-    total: |t| t.pick(64, 1600),
+    total: |t| t.pick(640, 14400),
     run,
     rule: "(a) histories of <=60 operations {block subnet, fetch address, fetch subnet of any mask, return a held unit} on generators built by new(range) / new_sub / new_sub_no_ends / all / none over pools that are single ranges, subnets of any mask and unions created by returns, including pools touching 0.0.0.0 and 255.255.255.255; a model keeps the pool as units (constructor range, returned units, pieces left by blocking) and the list of held units; every result is checked for membership, disjointness from everything held or blocked, and None only when no unit can hold an aligned block; new_sub_no_ends must offer exactly the host addresses. (b) full stack on the paused clock and on the multi-thread runtime: 1..40 DHCP clients start at once against one server with a pool of at least the needed size, latency jitter, <=1 duplicated frame per sender; leases must be pairwise distinct, inside the pool, equal to the your_ip of an Offer sent to that client's tap (H4), and a released address must be available from the server's pool again. Non-trivial = (a) history with a fragmented pool and a return followed by a fetch, (b) >=2 clients; distinct by history / scenario hash.",
     assumptions: &["only units that are currently held are returned, and whole (returning something not held is misuse)", "merging of adjacent returned units is not demanded: 'no space' is judged per unit"],
